@@ -369,9 +369,27 @@ func runC07(r *core.Run) {
 					l, o = append(append([]byte(nil), logBytes...), b.Bytes()...), fmt.Sprintf("field:event=%q+%d", sig, len(extra))
 				}
 			}
-			l = r.Blob(fmt.Sprintf("in%d", i), func() []byte { return l })
+			huge := r.Chance(3, "huge-log?")
+			if huge {
+				// a peer's event log may be large (one measured blob of several MiB), whole or cut
+				// short; deterministic content, so the replay file need not carry it
+				big := make([]byte, 5<<20)
+				for j := range big {
+					big[j] = byte(j*31 + j>>11)
+				}
+				ev := &eventlog.TCGPCREvent2{PCRIndex: 7, EventType: 0x80000001, EventData: eventlog.TCGEventData{Event: &eventlog.UnknownEvent{Data: big}}}
+				var b bytes.Buffer
+				if err := ev.Marshal(&b); err == nil {
+					l, o = append(append([]byte(nil), logBytes...), b.Bytes()...), "field:event=5MiB"
+					if r.Bool("huge-log-cut") {
+						l, o = l[:len(l)-(1<<19)-r.Intn(4096, "huge-log-cut-at")], "field:event=5MiB,truncate"
+					}
+				}
+			} else {
+				l = r.Blob(fmt.Sprintf("in%d", i), func() []byte { return l })
+			}
 			ops, inputLen = o, len(l)
-			if r.Bool("log-via-file") {
+			if huge || r.Bool("log-via-file") {
 				p := filepath.Join(scratch, fmt.Sprintf("log%d", i))
 				os.WriteFile(p, l, 0o644)
 				eo := &extract.Options{EventLogLocation: p, FirmwareManufacturer: "Google, Inc.", Getter: net, UEFIVariableReader: reader}
